@@ -249,6 +249,12 @@ def one_trace(rng, tid, prop, kind=None):
         spec = distinct_poly_spec(rng, shape, names=name_sets[j % 2], kind=kind, tag=j + 1)
         regs.append(rec.new(build_poly(spec), note="distinct"))
         shapes.append(tuple(shape))
+        if j == 0 and rng.random() < 0.5:
+            # a twin: the same shape, exponent table and dtype, but OTHER indeterminates (and other coefficients);
+            # the storage layouts coincide although the polynomials have nothing in common
+            twin = dict(spec, names=[n + 1 for n in spec["names"]], coefs=[[c * 2 for c in row] for row in spec["coefs"]])
+            regs.append(rec.new(build_poly(twin), note="twin"))
+            shapes.append(tuple(shape))
     # a 0-d operand is always around (full / full_like / where)
     regs.append(rec.new(build_poly(distinct_poly_spec(rng, (), names=name_sets[0], kind=kind, tag=7)), note="scalar"))
     shapes.append(())
